@@ -282,7 +282,7 @@ def gen_taps(rng, cp, fft):
 
 def case_channel(ctx, rng, idx):
     fft = FFTS[idx % 11]                       # up to 256 for the channel part
-    long_frame = idx % 80 == 7
+    long_frame = idx % 80 == 7 and idx < 16000          # (at most 200 such frames per run)
     if long_frame:
         fft = int(rng.choice([1024, 2048]))    # a wide-band frame of several symbols
     c = rng.random()
